@@ -829,11 +829,37 @@ fn c12_post(mut items: Vec<Item>) -> Vec<Item> {
             items.push(Item::new("ZBlobLists", Kind::Struct { shape: Shape::Named(vec![Field::new("chunks", Ty::Vec(Box::new(bytes())))]), rename_all: None }));
         }
     }
+    // Foreign date / URL types under their usual names, written without and with type arguments and path-qualified
+    // (`bson::DateTime`, `chrono::DateTime<Utc>`, `url::Url`): half of the configurations map them to `datetime` / `AnyUrl`,
+    // the names whose import and (de)serialiser functions the Python back end then has to bring along
+    if items.first().map(|i| i.layout % 7 == 0).unwrap_or(false) && !items.iter().any(|i| i.name == "StampHolder") {
+        let sel = items[0].layout / 7;
+        let plain = || Ty::user("DateTime");
+        let qual = || Ty::Qual(vec!["bson".into()], Box::new(Ty::user("DateTime")));
+        let generic = || Ty::Qual(vec!["chrono".into()], Box::new(Ty::User { name: "DateTime".into(), args: vec![Ty::user("Utc")] }));
+        let url = || Ty::Qual(vec!["url".into()], Box::new(Ty::user("Url")));
+        let fields = match sel % 6 {
+            0 => vec![Field::new("created_at", qual())],
+            1 => vec![Field::new("history", Ty::Vec(Box::new(plain())))],
+            2 => vec![Field::new("created_at", generic())],
+            3 => vec![Field::new("home", url()), Field::new("seen_at", Ty::Opt(Box::new(plain())))],
+            4 => vec![Field::new("by_name", Ty::Map(Box::new(Ty::Prim(Prim::String)), Box::new(qual())))],
+            _ => vec![Field::new("home", Ty::Opt(Box::new(url())))],
+        };
+        items.push(Item::new("StampHolder", Kind::Struct { shape: Shape::Named(fields), rename_all: None }));
+        if sel % 5 == 4 {
+            items.push(Item::new("ZStampAlias", Kind::Alias { ty: plain() }));
+        }
+    }
     items
 }
 fn c12_cfgs() -> BoxedStrategy<Cfg> {
-    (cfg_strategy(), any::<bool>())
-        .prop_map(|(mut c, bytes)| {
+    (cfg_strategy(), any::<bool>(), any::<bool>())
+        .prop_map(|(mut c, bytes, stamps)| {
+            if stamps {
+                c.type_mappings.insert("DateTime".into(), "datetime".into());
+                c.type_mappings.insert("Url".into(), "AnyUrl".into());
+            }
             if bytes {
                 // `bytes` is what Python wants, `Uint8Array` what TypeScript wants (one table for all languages here)
                 let v = if c.version_header { "Uint8Array" } else { "bytes" };
